@@ -242,6 +242,29 @@ def bounded(tier, seed):
                 txt, ok, back = '?', False, '%s: %s' % (type(e).__name__, e)
             if not ok:
                 viol('duration %r' % (td,), '%r parses back to %r' % (txt, back), 'duration(str(d)) == d')
+    # in-place adjustments (+=, -=) by less than a millisecond: the rendering is that of the adjusted value (not a cached older one),
+    # so that it still parses back to the instant and agrees with the comparisons
+    for v0 in (1000.0004, 1399326141.9994, 1700000000.0, 1414915323.1225):
+        for step in (0.0002, 0.0004, -0.0003, 0.0009):
+            ev += 1
+            distinct.add(('nudge', v0, step))
+            try:
+                ts = times.timestamp(v0)
+                str(ts)
+                bad = None
+                for k in range(5):
+                    if step > 0:
+                        ts += step
+                    else:
+                        ts -= -step
+                    txt, fresh = str(ts), str(times.timestamp(ts.value))
+                    if txt != fresh:
+                        bad = 'after %d adjustments of %+g s the value is %r but str() gives %r (a fresh timestamp of that value renders %r)' % (k + 1, step, ts.value, txt, fresh)
+                        break
+            except Exception as e:
+                bad = 'raised %s: %s' % (type(e).__name__, e)
+            if bad:
+                viol('in-place adjustment of timestamp(%r) by %+g' % (v0, step), bad, 'str(ts) is the rendering of the current value')
     # timestamps: UTC default rendering and full zone names around every DST transition
     zones = sorted(zoneinfo.available_timezones())
     if tier == 'quick':
